@@ -173,7 +173,10 @@ class Family:
         if c == 's':
             return [b'\x00' * 6, b'abcdef', b'\xff' * 6, b'\x00\x01\x02\x03\x04\x05']
         if c == 'O':
-            return [None, 0, 'v', (1, 2), 3.5, 'w' * 3, [1], {'a': 1}]
+            # (1 / 1.0 / True: equal, yet not the same datum - storing one
+            # over the other is a change that must not be optimised away)
+            return [None, 0, 'v', (1, 2), 3.5, 'w' * 3, [1], {'a': 1},
+                    1, 1.0, True]
         raise AssertionError(c)
 
     def sort_key(self):
